@@ -1720,44 +1720,52 @@ func (p *parser) scanCharSet(caseInsensitive, scanOnly bool) (*CharSet, error) {
 		} else if ch == '\\' && p.charsRight() > 0 {
 			switch ch = p.moveRightGetChar(); ch {
 			case 'D', 'd':
-				if !scanOnly {
-					if inRange {
+				// the pre-scan keeps the same range state as the main parse
+				if inRange {
+					if !scanOnly {
 						if !p.useOptionE() {
 							return nil, p.getErr(ErrBadClassInCharRange, ch)
 						}
 						cc.addChar(chPrev)
 						cc.addChar('-')
-						inRange = false
 					}
+					inRange = false
+				}
+				if !scanOnly {
 					cc.addDigit(p.useOptionE() || p.useRE2(), ch == 'D')
 				}
 				continue
 
 			case 'S', 's':
-				if !scanOnly {
-					if inRange {
+				// the pre-scan keeps the same range state as the main parse
+				if inRange {
+					if !scanOnly {
 						if !p.useOptionE() {
 							return nil, p.getErr(ErrBadClassInCharRange, ch)
 						}
 						cc.addChar(chPrev)
 						cc.addChar('-')
-						inRange = false
 					}
+					inRange = false
+				}
+				if !scanOnly {
 					cc.addSpace(p.useOptionE(), p.useRE2(), ch == 'S')
 				}
 				continue
 
 			case 'W', 'w':
-				if !scanOnly {
-					if inRange {
+				// the pre-scan keeps the same range state as the main parse
+				if inRange {
+					if !scanOnly {
 						if !p.useOptionE() {
 							return nil, p.getErr(ErrBadClassInCharRange, ch)
 						}
 						cc.addChar(chPrev)
 						cc.addChar('-')
-						inRange = false
 					}
-
+					inRange = false
+				}
+				if !scanOnly {
 					cc.addWord(p.useOptionE() || p.useRE2(), ch == 'W')
 				}
 				continue
